@@ -139,6 +139,11 @@ def run(ctx: Ctx) -> None:
     ctx.not_decided = "equality of observed traces for arbitrary services, values, caps, codecs and thresholds (runtime quantities); the shm and subprocess variants share the pipe code path."
     model = ExcModel(ctx.repo, ctx.res)
     _state_codec(ctx)
+    # the three stream loops agree on where a step's ctx.client_log() goes: into the collector flushed for that step
+    # (clause shared with C08; a loop that binds it elsewhere delivers different logs than its siblings)
+    from .c08 import _step_log_binding
+
+    _step_log_binding(ctx)
     so, su, ss = ctx.fn(SERVE_ONE), ctx.fn(SERVE_UNARY), ctx.fn(SERVE_STREAM)
     hu, hi = ctx.fn(HTTP_UNARY), ctx.fn(HTTP_INIT)
     et, pt = ctx.fn(EXCH_TURN), ctx.fn(PROD_TURN)
